@@ -18,8 +18,27 @@ def VWit (s : St) : Prop :=
   alive (s.status .V) = true →
     ∃ a, s.status (.U a) = .waitT .V ∧ (s.prog (.U a) = .loginWait a ∨ s.prog (.U a) = .recvWait a)
 
-/-- the two facts, for an open session -/
-def PB (s : St) : Prop := (s.dispSet = true → DOk s) ∧ VWit s
+/-- no receive is pending while the dispatcher sleeps in `queue.get()`: a receive only starts while `_dispatcher_task is None`,
+    and a dispatcher created next to a pending receive takes no step before the receive has ended.  Hence, when the late cancel
+    of a receive stashes the held message (`Model/Session.lean`, `stepRun`, cancelled `recvWait` / `loginWait`), no dispatcher is
+    suspended on the asyncio queue: "stash in front of the queue" and "re-insert at the head of the queue" cannot be told apart. -/
+def JB (s : St) : Prop := s.status .D = .waitQ → s.rcvBusy = false
+
+/-- the three facts, for an open session -/
+def PB (s : St) : Prop := (s.dispSet = true → DOk s) ∧ VWit s ∧ JB s
+
+theorem JB.of_frame {s s' : St} (j : JB s) (h1 : s'.status .D = .waitQ → s.status .D = .waitQ)
+    (h2 : s'.rcvBusy = true → s.rcvBusy = true) : JB s' := by
+  intro hd
+  have := j (h1 hd)
+  cases h : s'.rcvBusy with
+  | false => rfl
+  | true => rw [h2 h] at this; cases this
+
+/-- discharges `s'.rcvBusy = true → s.rcvBusy = true` when the flag is unchanged or cleared -/
+macro "jb_auto" : tactic => `(tactic| first
+  | exact fun h => h
+  | exact fun h => (Bool.false_ne_true h).elim)
 
 def InvP (s : St) : Prop := s.closed = false → PB s
 
@@ -43,13 +62,14 @@ theorem DOk.of_frame {s s' : St} (d : DOk s) (h2 : s'.status .D = s.status .D) (
 theorem PB.of_frame {s s' : St} (p : PB s) (h1 : s'.dispSet = s.dispSet) (h2 : s'.status .D = s.status .D)
     (h3 : s'.prog .D = s.prog .D) (h4 : s.queue = [] → s'.queue = [])
     (h : alive (s'.status .V) = true → alive (s.status .V) = true ∧
-      ∀ a, s.status (.U a) = .waitT .V → s'.status (.U a) = .waitT .V ∧ s'.prog (.U a) = s.prog (.U a)) : PB s' :=
-  ⟨fun hd => (p.1 (by rw [← h1]; exact hd)).of_frame h2 h3 h4, p.2.of_frame h⟩
+      ∀ a, s.status (.U a) = .waitT .V → s'.status (.U a) = .waitT .V ∧ s'.prog (.U a) = s.prog (.U a))
+    (h5 : s'.rcvBusy = true → s.rcvBusy = true := by jb_auto) : PB s' :=
+  ⟨fun hd => (p.1 (by rw [← h1]; exact hd)).of_frame h2 h3 h4, p.2.1.of_frame h, p.2.2.of_frame (by rw [h2]; exact id) h5⟩
 
 /-- a change outside everything `PB` reads -/
 theorem PB.same {s s' : St} (p : PB s) (h1 : s'.dispSet = s.dispSet) (h2 : s'.status = s.status) (h3 : s'.prog = s.prog)
-    (h4 : s.queue = [] → s'.queue = []) : PB s' :=
-  p.of_frame h1 (by rw [h2]) (by rw [h3]) h4 (fun h => ⟨by rw [h2] at h; exact h, fun a ha => ⟨by rw [h2]; exact ha, by rw [h3]⟩⟩)
+    (h4 : s.queue = [] → s'.queue = []) (h5 : s'.rcvBusy = true → s.rcvBusy = true := by jb_auto) : PB s' :=
+  p.of_frame h1 (by rw [h2]) (by rw [h3]) h4 (fun h => ⟨by rw [h2] at h; exact h, fun a ha => ⟨by rw [h2]; exact ha, by rw [h3]⟩⟩) h5
 
 theorem DOk.put {s : St} (d : DOk s) (m : Nat) : DOk (s.put m) := by
   unfold DOk
@@ -59,7 +79,8 @@ theorem DOk.put {s : St} (d : DOk s) (m : Nat) : DOk (s.put m) := by
   · left; rw [h1]; simp; exact Or.inl h2
 
 theorem PB.put {s : St} (p : PB s) (m : Nat) : PB (s.put m) := by
-  refine ⟨fun hd => (p.1 (by rw [← (put_flags s m).2.1]; exact hd)).put m, p.2.of_frame ?_⟩
+  refine ⟨fun hd => (p.1 (by rw [← (put_flags s m).2.1]; exact hd)).put m, p.2.1.of_frame ?_,
+    p.2.2.of_frame (fun h => by rw [put_status] at h; split at h <;> first | cases h | exact h) (by rw [(put_flags s m).2.2.2.2.1]; exact id)⟩
   intro hal
   constructor
   · rw [put_status] at hal
@@ -181,13 +202,15 @@ theorem stepReader_P {cfg : Cfg} {s : St} (p : PB s) (o : OpenFacts s) :
 
 theorem dispHandle_P {cfg : Cfg} {s : St} (v : VWit s) (hst : s.status .D = .ready) (hpr : s.prog .D = .dispLoop) (n : Nat) :
     (dispHandle cfg s n).closed = false → PB (dispHandle cfg s n) := by
-  have p : PB s := ⟨fun _ => Or.inl ⟨hst, Or.inl hpr⟩, v⟩
+  have jb : JB s := fun h => by rw [hst] at h; cases h
+  have p : PB s := ⟨fun _ => Or.inl ⟨hst, Or.inl hpr⟩, v, jb⟩
   unfold dispHandle
   split
   · intro _; exact p.same rfl rfl rfl (fun h => h)
   · rename_i k _
     intro _
-    refine ⟨fun _ => Or.inl ⟨hst, Or.inr ⟨n, k, by simp [St.setProg]⟩⟩, v.of_frame (fun hal => ⟨hal, fun a ha => ⟨ha, by simp [St.setProg]⟩⟩)⟩
+    refine ⟨fun _ => Or.inl ⟨hst, Or.inr ⟨n, k, by simp [St.setProg]⟩⟩, v.of_frame (fun hal => ⟨hal, fun a ha => ⟨ha, by simp [St.setProg]⟩⟩),
+      jb.of_frame id id⟩
   · intro h; exact closed_elim h
   · intro _; exact (PB.initiateClose p).same rfl rfl rfl (fun h => h)
   · intro _; exact p.same rfl rfl rfl (fun h => h)
@@ -201,13 +224,19 @@ theorem stepDisp_P {cfg : Cfg} {s : St} (p : PB s) (o : OpenFacts s) (hst : s.st
   rw [if_neg (by simp [o.qc])]
   split
   · intro _; exact p
-  · split
+  · rename_i hbusy
+    split
     · rename_i hq
       intro _
-      refine ⟨fun _ => Or.inr ⟨by simp [St.setStatus], hpr, hq⟩, p.2.of_frame (fun hal => ⟨by simpa [St.setStatus] using hal, fun a ha => ⟨by simp [St.setStatus, ha], rfl⟩⟩)⟩
+      refine ⟨fun _ => Or.inr ⟨by simp [St.setStatus], hpr, hq⟩, p.2.1.of_frame (fun hal => ⟨by simpa [St.setStatus] using hal, fun a ha => ⟨by simp [St.setStatus, ha], rfl⟩⟩), ?_⟩
+      intro _
+      show s.rcvBusy = false
+      cases h : s.rcvBusy with
+      | false => rfl
+      | true => rw [h] at hbusy; simp at hbusy
     · rename_i n q hq
       refine dispHandle_P ?_ ?_ ?_ n
-      · exact p.2.of_frame (fun hal => ⟨hal, fun a ha => ⟨ha, rfl⟩⟩)
+      · exact p.2.1.of_frame (fun hal => ⟨hal, fun a ha => ⟨ha, rfl⟩⟩)
       · exact hst
       · exact hpr
 
@@ -225,7 +254,8 @@ theorem stepMon_P {cfg : Cfg} {s : St} (p : PB s) (isLocal : Bool) :
 theorem PB.startDispatching {s : St} (p : PB s) (cfg : Cfg) : PB (s.startDispatching cfg) := by
   unfold St.startDispatching
   split
-  · refine ⟨fun _ => Or.inl ⟨by simp [St.spawn, St.setStatus, St.setProg], Or.inl (by simp [St.spawn, St.setStatus, St.setProg])⟩, p.2.of_frame ?_⟩
+  · refine ⟨fun _ => Or.inl ⟨by simp [St.spawn, St.setStatus, St.setProg], Or.inl (by simp [St.spawn, St.setStatus, St.setProg])⟩, p.2.1.of_frame ?_,
+      fun h => by simp [St.spawn, St.setStatus, St.setProg] at h⟩
     intro hal
     exact ⟨by simpa [St.spawn, St.setStatus, St.setProg] using hal, fun a ha => by simp [St.spawn, St.setStatus, St.setProg, ha]⟩
   · exact p
@@ -298,15 +328,25 @@ theorem notD_of_cancelled {s : St} (p : PB s) (o : OpenFacts s) {t : Tid} (hst :
   have hd := o.dal (by rw [hst]; rfl)
   rcases p.1 hd with ⟨h, _⟩ | ⟨h, _⟩ <;> rw [hst] at h <;> cases h
 
-theorem stepRun_P {cfg : Cfg} {s : St} (a : InvA cfg s) (b : InvB s) (p : PB s) (o : OpenFacts s) (hc : s.closed = false) (t : Tid) :
+/-- a late cancel puts the held message back in front of the queue: a receive is pending, so the dispatcher is not asleep on it -/
+theorem PB.unhold {s : St} (p : PB s) (hb : s.rcvBusy = true) :
+    PB { s with vres := none, rcvBusy := false, queue := s.vres.toList ++ s.queue } := by
+  have hD : s.status .D ≠ .waitQ := fun h => by have := p.2.2 h; rw [hb] at this; cases this
+  refine ⟨fun hd => ?_, p.2.1.of_frame (fun hal => ⟨hal, fun a ha => ⟨ha, rfl⟩⟩), p.2.2.of_frame id (fun h => (Bool.false_ne_true h).elim)⟩
+  rcases p.1 hd with d | ⟨d1, _, _⟩
+  · exact Or.inl d
+  · exact absurd d1 hD
+
+theorem stepRun_P {cfg : Cfg} {s : St} (a : InvA cfg s) (b : InvB s) (w : InvW s) (p : PB s) (o : OpenFacts s) (hc : s.closed = false) (t : Tid) :
     (stepRun cfg s t).closed = false → PB (stepRun cfg s t) := by
   unfold stepRun
   have p0 : PB ({ s with imm := none } : St) := p.same rfl rfl rfl (fun h => h)
+  have w0 : InvW ({ s with imm := none } : St) := by iw w
   have o0 : OpenFacts ({ s with imm := none } : St) := ⟨o.idle, o.qc, o.dw, o.vw, o.wv, o.rs, o.dal⟩
   have b0 : InvB ({ s with imm := none } : St) := InvB.of_bcore (s := s) rfl b
   have a0 : InvA cfg ({ s with imm := none } : St) := InvA.of_core (s := s) rfl a
   have hc0 : ({ s with imm := none } : St).closed = false := hc
-  generalize ({ s with imm := none } : St) = s0 at p0 o0 b0 a0 hc0
+  generalize ({ s with imm := none } : St) = s0 at p0 o0 b0 a0 hc0 w0
   simp only
   split
   · -- a cancellation is delivered: not to the dispatcher of an open session
@@ -318,17 +358,27 @@ theorem stepRun_P {cfg : Cfg} {s : St} (a : InvA cfg s) (b : InvB s) (p : PB s) 
     split
     · intro _; exact PB.finish (s := s0.emit (.msgAbandon _)) (p0.same rfl rfl rfl (fun h => h)) ⟨o0.idle, o0.qc, o0.dw, o0.vw, o0.wv, o0.rs, o0.dal⟩ htD hrun
     · intro _; exact p0.finish o0 htD hrun
-    · split
+    · rename_i u hp
+      have hb : s0.rcvBusy = true := by
+        have htu : t = .U u := allowed_recvWait (by rw [hp] at typ; exact typ)
+        subst htu
+        exact w0.busy u ⟨hal, Or.inr hp⟩
+      split
       · intro _
-        exact PB.finish (s := ({ s0 with vres := none, rcvBusy := false, gone := _ } : St).emit (.ret _ .eoq))
-          (p0.same rfl rfl rfl (fun h => h)) ⟨o0.idle, o0.qc, o0.dw, o0.vw, o0.wv, o0.rs, o0.dal⟩ htD hrun
+        exact PB.finish (s := ({ s0 with vres := none, rcvBusy := false, queue := _ } : St).emit (.ret _ .eoq))
+          ((p0.unhold hb).same rfl rfl rfl (fun h => h)) ⟨o0.idle, o0.qc, o0.dw, o0.vw, o0.wv, o0.rs, o0.dal⟩ htD hrun
       · intro _
-        exact PB.finish (s := ({ s0 with vres := none, rcvBusy := false, gone := _ } : St).emit (.ret _ .cancelled))
-          (p0.same rfl rfl rfl (fun h => h)) ⟨o0.idle, o0.qc, o0.dw, o0.vw, o0.wv, o0.rs, o0.dal⟩ htD hrun
-    · split
+        exact PB.finish (s := ({ s0 with vres := none, rcvBusy := false, queue := _ } : St).emit (.ret _ .cancelled))
+          ((p0.unhold hb).same rfl rfl rfl (fun h => h)) ⟨o0.idle, o0.qc, o0.dw, o0.vw, o0.wv, o0.rs, o0.dal⟩ htD hrun
+    · rename_i u hp
+      have hb : s0.rcvBusy = true := by
+        have htu : t = .U u := allowed_loginWait (by rw [hp] at typ; exact typ)
+        subst htu
+        exact w0.busy u ⟨hal, Or.inl hp⟩
+      split
       · intro _
-        exact PB.finish (s := ({ s0 with vres := none, rcvBusy := false, gone := _ } : St).emit (.ret _ .refused))
-          (p0.same rfl rfl rfl (fun h => h)) ⟨o0.idle, o0.qc, o0.dw, o0.vw, o0.wv, o0.rs, o0.dal⟩ htD hrun
+        exact PB.finish (s := ({ s0 with vres := none, rcvBusy := false, queue := _ } : St).emit (.ret _ .refused))
+          ((p0.unhold hb).same rfl rfl rfl (fun h => h)) ⟨o0.idle, o0.qc, o0.dw, o0.vw, o0.wv, o0.rs, o0.dal⟩ htD hrun
       · intro h; exact closed_elim h
     · rw [stepInClose_open a0 hc0]; intro _; exact p0
     · intro _; exact p0.finish o0 htD hrun
@@ -350,10 +400,12 @@ theorem stepRun_P {cfg : Cfg} {s : St} (a : InvA cfg s) (b : InvB s) (p : PB s) 
       subst htD
       split
       · intro _
-        refine ⟨fun _ => Or.inl ⟨hst, Or.inl (by simp [St.setProg])⟩, p0.2.of_frame (fun hal => ⟨hal, fun a ha => ⟨ha, by simp [St.setProg, St.emit]⟩⟩)⟩
+        refine ⟨fun _ => Or.inl ⟨hst, Or.inl (by simp [St.setProg])⟩, p0.2.1.of_frame (fun hal => ⟨hal, fun a ha => ⟨ha, by simp [St.setProg, St.emit]⟩⟩),
+          p0.2.2.of_frame id id⟩
       · rename_i k'
         intro _
-        refine ⟨fun _ => Or.inl ⟨hst, Or.inr ⟨n, k', by simp [St.setProg]⟩⟩, p0.2.of_frame (fun hal => ⟨hal, fun a ha => ⟨ha, by simp [St.setProg]⟩⟩)⟩
+        refine ⟨fun _ => Or.inl ⟨hst, Or.inr ⟨n, k', by simp [St.setProg]⟩⟩, p0.2.1.of_frame (fun hal => ⟨hal, fun a ha => ⟨ha, by simp [St.setProg]⟩⟩),
+          p0.2.2.of_frame id id⟩
     · rename_i hp
       intro _
       rcases allowed_monStart (by rw [hp] at typ; exact typ) with h | h <;> subst h <;> exact p0.reprog (by simp) hrun _
@@ -413,26 +465,32 @@ theorem PB.setProg_user {s : St} (p : PB s) {u : Nat} (h : s.status (.U u) ≠ .
   have hne : a ≠ u := by intro e; subst e; exact h ha
   simp [St.setProg, hne]
 
-theorem startRecv_P {s : St} (p : PB s) (u : Nat) (isLogin : Bool) (hu : s.status (.U u) = .absent) : PB (startRecv s u isLogin) := by
+theorem startRecv_P {s : St} (p : PB s) (u : Nat) (isLogin : Bool) (hu : s.status (.U u) = .absent)
+    (hdal : alive (s.status .D) = true → s.dispSet = true) : PB (startRecv s u isLogin) := by
   have hnw : s.status (.U u) ≠ .waitT .V := by rw [hu]; simp
   unfold startRecv
   split
   · exact p
   · split
     · exact PB.setStatus_user (s := s.emit _) (p.same rfl rfl rfl (fun h => h)) hnw _
-    · split
+    · rename_i hnd
+      -- a receive starts only while `_dispatcher_task is None`: no dispatcher sleeps in `queue.get()`
+      have hDq : s.status .D ≠ .waitQ := fun h => hnd (hdal (by rw [h]; rfl))
+      split
       · rename_i n q hq
-        refine PB.setProg_user (PB.setStatus_user (s := { s with queue := q, vres := some n, rcvBusy := true, imm := some (.U u) })
-          (p.same rfl rfl rfl (fun h => by rw [hq] at h; cases h)) hnw _) ?_ _
+        have p1 : PB { s with queue := q, vres := some n, rcvBusy := true, imm := some (.U u) } :=
+          ⟨fun hd => absurd hd hnd, p.2.1.of_frame (fun hal => ⟨hal, fun a ha => ⟨ha, rfl⟩⟩), fun h => absurd h hDq⟩
+        refine PB.setProg_user (PB.setStatus_user p1 hnw _) ?_ _
         simp [St.setStatus]
       · split
         · split
           · exact PB.setStatus_user (s := s.emit _) (p.same rfl rfl rfl (fun h => h)) hnw _
           · exact PB.setStatus_user (s := s.emit _) (p.same rfl rfl rfl (fun h => h)) hnw _
         · -- the helper task is spawned and the caller awaits it: the caller is the witness
-          refine ⟨fun hd => ?_, fun _ => ⟨u, by simp [St.setProg, St.setStatus], ?_⟩⟩
+          refine ⟨fun hd => ?_, fun _ => ⟨u, by simp [St.setProg, St.setStatus], ?_⟩, fun h => ?_⟩
           · exact (p.1 hd).of_frame (by simp [St.setProg, St.setStatus, St.spawn]) (by simp [St.setProg, St.setStatus, St.spawn]) (fun h => h)
           · cases isLogin <;> simp [St.setProg]
+          · exact absurd (by simpa [St.setProg, St.setStatus, St.spawn] using h) hDq
 
 theorem step_P {cfg : Cfg} {s : St} (a : InvA cfg s) (r : InvR s) (b : InvB s) (w : InvW s) (p : InvP s) (ev : Ev) :
     InvP (step cfg s ev) := by
@@ -457,7 +515,7 @@ theorem step_P {cfg : Cfg} {s : St} (a : InvA cfg s) (r : InvR s) (b : InvB s) (
   | run t =>
     simp only [step]
     split
-    · exact stepRun_P a b pb o hc t
+    · exact stepRun_P a b w pb o hc t
     · intro _; exact pb
   | callClose u =>
     simp only [step]
@@ -471,7 +529,7 @@ theorem step_P {cfg : Cfg} {s : St} (a : InvA cfg s) (r : InvR s) (b : InvB s) (
     split
     · intro _; exact pb
     · rename_i hab
-      intro _; exact startRecv_P pb u false (by simpa using hab)
+      intro _; exact startRecv_P pb u false (by simpa using hab) o.dal
   | callRecvNowait u =>
     simp only [step]
     split
@@ -491,7 +549,7 @@ theorem step_P {cfg : Cfg} {s : St} (a : InvA cfg s) (r : InvR s) (b : InvB s) (
         simp only [Bool.or_eq_true, not_or] at hab
         simpa using hab.1.1
       intro _
-      exact startRecv_P (s := { (s.emit (.write .login)) with pingL := true }) (pb.same rfl rfl rfl (fun h => h)) u true hab'
+      exact startRecv_P (s := { (s.emit (.write .login)) with pingL := true }) (pb.same rfl rfl rfl (fun h => h)) u true hab' o.dal
   | callSend => intro _; exact pb.same rfl rfl rfl (fun h => h)
   | cancel u =>
     intro _
@@ -513,7 +571,7 @@ theorem step_P {cfg : Cfg} {s : St} (a : InvA cfg s) (r : InvR s) (b : InvB s) (
 
 theorem InvP.init : InvP {} := by
   intro _
-  exact ⟨fun h => by simp at h, fun h => by simp [alive] at h⟩
+  exact ⟨fun h => by simp at h, fun h => by simp [alive] at h, fun h => by simp at h⟩
 
 /-- **`InvP` holds in every reachable state.** -/
 theorem runEvs_InvP (cfg : Cfg) (evs : List Ev) : InvP (runEvs cfg {} evs) := by
@@ -524,5 +582,29 @@ theorem runEvs_InvP (cfg : Cfg) (evs : List Ev) : InvP (runEvs cfg {} evs) := by
       intro s a r b w p
       exact ih _ (step_InvA a ev) (step_InvR a r ev) (step_InvB a r b ev) (step_W a r b w ev) (step_P a r b w p ev)
   exact this _ (InvA.init cfg) InvR.init InvB.init InvW.init InvP.init
+
+/-- **When a cancellation is delivered inside a receive of an open session — the moment the model puts a held message back
+    at the head of the queue, i.e. the code appends it to `_unclaimed` — nothing is suspended on the asyncio queue**: the
+    dispatcher is not asleep in `queue.get()` and the receive helper has ended.  So no getter could have been served from the
+    asyncio queue behind the stash: the stash in front of the queue and the queue with the message re-inserted at its head are
+    the same thing to every later reader (`get_nowait()` and the dispatcher loop read the stash first). -/
+theorem stash_no_getter (cfg : Cfg) (evs : List Ev) (u : Nat) (hc : (runEvs cfg {} evs).closed = false)
+    (hst : (runEvs cfg {} evs).status (.U u) = .cancelled)
+    (hp : (runEvs cfg {} evs).prog (.U u) = .loginWait u ∨ (runEvs cfg {} evs).prog (.U u) = .recvWait u) :
+    (runEvs cfg {} evs).status .D ≠ .waitQ ∧ alive ((runEvs cfg {} evs).status .V) = false := by
+  have w := runEvs_InvW cfg evs
+  have p := runEvs_InvP cfg evs hc
+  have hr : rcving (runEvs cfg {} evs) u := ⟨by rw [hst]; rfl, hp⟩
+  have hb := w.busy u hr
+  refine ⟨fun h => ?_, ?_⟩
+  · have := p.2.2 h; rw [hb] at this; cases this
+  · cases hal : alive ((runEvs cfg {} evs).status .V) with
+    | false => rfl
+    | true =>
+      obtain ⟨a, ha, hpa⟩ := p.2.1 hal
+      have hra : rcving (runEvs cfg {} evs) a := ⟨by rw [ha]; rfl, hpa⟩
+      have := w.uniq a u hra hr
+      subst this
+      rw [hst] at ha; cases ha
 
 end NasdaqModel.Sess
